@@ -409,3 +409,51 @@ _run_h19 = run
 def run(ctx, rep, tier):
     _run_h19(ctx, rep, tier)
     _resolution_details(ctx, rep, tier)
+
+
+# ---------------------------------------------------------------------------------------------------------------- C19.i
+def _malformed_arguments(ctx, rep, tier):
+    """C19.i: 'unknown or malformed options are reported': (1) an empty argument is an error, not skipped; (2) the two-dash form only takes the long
+    names (a one-letter name after `--` would also consume the next argument as its value); (3) one-letter options that take no value refuse
+    trailing text; (4) text converted with int() is first required to be plain ASCII digits (int() also accepts signs, blanks, underscores and
+    the digits of other scripts)."""
+    model = ctx.model
+    fn = model.func(LCF)
+    rep.rule("C19.i", "malformed arguments are refused: empty words, one-letter names after `--`, values on value-less short options, anything but ASCII digits where a number is expected")
+    rep.check(model.has(LCF, "if not option:\n    raise RuntimeError($$m)"), "C19.i", LCF, "an empty argument is an error", "empty arguments are skipped silently")
+    rep.check(model.has(LCF, "option_name = option[2:]\nif len(option_name) < 2:\n    raise RuntimeError($$m)"), "C19.i", LCF, "`--x` with a one-letter name is refused",
+              "`--t`, `--h`, `--o`... are accepted as aliases of the short options; `--t -O3 in.nmfu` swallows -O3 as the value of --t")
+    rep.check(model.has(LCF, "option_value = option[2:]\nif option_name in ['t', 'h'] and option_value:\n    raise RuntimeError($$m)"), "C19.i", LCF, "-t / -h refuse trailing text",
+              "`-tjunk`, `-tO3` behave like `-t`: the rest of the word is ignored")
+    vless = sorted(n.value for st in ast.walk(fn) if isinstance(st, ast.Compare) and ast.unparse(st.left) == "option_name" for c in st.comparators for n in ast.walk(c)
+                   if isinstance(n, ast.Constant) and isinstance(n.value, str) and len(n.value) == 1)
+    takes_value = {"o", "O", "f", "d"}
+    rep.check(set(vless) - takes_value == {"t", "h"}, "C19.i", LCF, f"one-letter options: {sorted(set(vless))}; those without a value are exactly t and h", f"one-letter options are now {sorted(set(vless))}: re-derive which take a value")
+    n = 0
+    for c in calls_in(fn, nested=False):
+        is_int = (isinstance(c.func, ast.Name) and c.func.id == "int") or ast.unparse(c.func) == "type(ProgramOption[p_option_name].default)"
+        if not is_int or not c.args or ast.unparse(c.args[0]) != "option_value":
+            continue
+        n += 1
+        # the statement before it in the same block: `if <...> not (option_value.isascii() and option_value.isdigit()): raise ValueError(..)`
+        stmt = c
+        while stmt in model.parents and not isinstance(stmt, ast.stmt):
+            stmt = model.parents[stmt]
+        blk = model.parents.get(stmt)
+        lst = next((getattr(blk, f) for f in ("body", "orelse", "finalbody") if isinstance(getattr(blk, f, None), list) and stmt in getattr(blk, f)), [])
+        prev = lst[lst.index(stmt) - 1] if stmt in lst and lst.index(stmt) > 0 else None
+        ok = isinstance(prev, ast.If) and "not (option_value.isascii() and option_value.isdigit())" in ast.unparse(prev.test) and isinstance(prev.body[-1], ast.Raise)
+        if ok and ast.unparse(c.func) != "int":
+            ok = "type(ProgramOption[p_option_name].default) is int" in ast.unparse(prev.test)
+        rep.check(ok, "C19.i", LCF, f"{ast.unparse(c)[:50]}: the text is ASCII digits (checked just before)", "a number is converted with int() unchecked: `-O+2`, `-O0_1`, `-O 2`, digits of other scripts "
+                  "and negative option values are accepted", line=c.lineno)
+    if n < 2:
+        raise AnalysisError(f"C19.i: only {n} numeric conversions of option text found")
+
+
+_run_i19 = run
+
+
+def run(ctx, rep, tier):
+    _run_i19(ctx, rep, tier)
+    _malformed_arguments(ctx, rep, tier)
